@@ -74,6 +74,9 @@ func (*c03) Corpus() []any {
 	out = append(out, hist(inst, &w))
 	out = append(out, hist(withK(c12Op("install", 1, eng.Flags{Atomic: true}, c03Hooks, "a", "b"), "create", "ConfigMap/b")))
 	out = append(out, hist(inst, withK(c12Op("upgrade", 2, eng.Flags{Cleanup: true}, nil, "a", "c", "d"), "create", "ConfigMap/d")))
+	// rollback (excluded from "previous stays deployed"): PATCH a rejected => 1:superseded 2:superseded 3:failed
+	out = append(out, hist(c12Op("install", 1, eng.Flags{}, nil, "a"), c12Op("upgrade", 2, eng.Flags{}, nil, "a"),
+		withK(c12Op("rollback", 0, eng.Flags{}, nil), "patch", "ConfigMap/a")))
 	// K9: the hook hx runs on pre-install and on pre-delete and is never deleted (hook-failed only): the install fails
 	// (CREATE a rejected), the automatic uninstall cannot create hx again (409) and aborts: history 1:uninstalling
 	k9 := []eng.Hook{hk("hx", 0, []string{"pre-install", "pre-delete"}, "hook-failed")}
